@@ -18,7 +18,7 @@ func init() {
 			"(5) Terminator.Drain returns nil only when no pod is waiting for eviction in any group; " +
 			"(6) lifecycle.finalize removes the NodeClaim finalizer only when (not Registered or no Nodes left) and (no provider id or provider Delete reports NotFound), with every other error edge failing closed.",
 		NotCovered: []string{"truthfulness of the provider's NotFound answers", "volume-attachment filtering semantics (which pods are drainable)", "behaviour between two API calls under crash (only the guards re-evaluated on the next reconcile are decided)"},
-		Rules: c09Rules,
+		Rules:      c09Rules,
 	})
 }
 
